@@ -1,10 +1,18 @@
 #!/bin/sh
-# usage: tools/try_seeded.sh <patch.diff> <PROP> [budget_s] [seed]   -- applies the patch to /repo, runs the check, always reverts
-PATCH=$1; PROP=$2; BUDGET=${3:-50}; SEED=${4:-0}
+# usage: tools/try_seeded.sh <patch.diff | worktree-dir> <PROP> [budget_s] [seed]
+#  patch file : applies it to /repo, runs the check, always reverts (do not use while another run reads /repo)
+#  directory  : runs the check against <dir>/src (a worktree that has the change applied) via VERIF_REPO_SRC
+# evidence of these runs goes to a scratch directory, never to /verif/evidence
+WHAT=$1; PROP=$2; BUDGET=${3:-50}; SEED=${4:-0}
+export VERIF_EVIDENCE_DIR=$(mktemp -d /dev/shm/seeded-ev.XXXX)
+if [ -d "$WHAT" ]; then
+  cd /verif && VERIF_REPO_SRC="$WHAT/src" VERIF_SEED=$SEED ./check "$PROP" --budget "$BUDGET" 2>&1 | grep -v "conda\|KNOWN-FINDING" | grep -E "VIOLATION|check=|\[dsim\] C|HARNESS" | head -8 | cut -c1-400
+  rm -rf "$VERIF_EVIDENCE_DIR"; exit 0
+fi
 cd /repo || exit 9
 if [ -n "$(git status --porcelain --untracked-files=no)" ]; then echo "/repo is dirty, refusing"; exit 9; fi
-git apply "$PATCH" || { echo "patch does not apply"; exit 9; }
-cd /verif && VERIF_SEED=$SEED ./check "$PROP" --budget "$BUDGET" 2>&1 | grep -v "conda\|KNOWN-FINDING" | tail -8 | cut -c1-500
-rc=$?
-git -C /repo checkout -- . 
+git apply "$WHAT" || { echo "patch does not apply"; exit 9; }
+cd /verif && VERIF_SEED=$SEED ./check "$PROP" --budget "$BUDGET" 2>&1 | grep -v "conda\|KNOWN-FINDING" | grep -E "VIOLATION|check=|\[dsim\] C|HARNESS" | head -8 | cut -c1-400
+git -C /repo checkout -- .
 echo "[reverted] $(git -C /repo status --porcelain --untracked-files=no | wc -l) dirty files"
+rm -rf "$VERIF_EVIDENCE_DIR"
